@@ -100,13 +100,16 @@ def parseSeries (s : String) : Option StoreSpec.Series :=
   | _ => none
 
 def parseSpecBlock (s : String) : Option StoreSpec.Block :=
-  match splitChar '@' s with
-  | [e, a, b, ss] => do
+  let mk (e a b ss res : String) : Option StoreSpec.Block := do
     let e ← parseLabels e
     let a ← parseInt? a
     let b ← parseInt? b
     let ss ← (listOf ';' ss).mapM parseSeries
-    pure ⟨e, a, b, ss⟩
+    let res ← parseInt? res
+    pure ⟨e, a, b, ss, res⟩
+  match splitChar '@' s with
+  | [e, a, b, ss] => mk e a b ss "0"
+  | [e, a, b, ss, res] => mk e a b ss res
   | _ => none
 
 def parseSpecBlocks (s : String) : Option (List StoreSpec.Block) := (listOf '/' s).mapM parseSpecBlock
@@ -121,12 +124,17 @@ def parseMatcher (s : String) : Option (StoreSpec.Matcher × Bool) :=
     pure (⟨n, false, vs⟩, t == 0 && n == 1)
   | _ => none
 
-def parseReq (mint maxt matchers without : String) (skip : Bool) : Option StoreSpec.Req := do
+def parseReq (mint maxt matchers without : String) (skip : Bool) (maxRes : Int := 0) : Option StoreSpec.Req := do
   let a ← parseInt? mint
   let b ← parseInt? maxt
   let ms ← (listOf ',' matchers).mapM parseMatcher
   let w ← parseNats? ',' without
-  pure ⟨a, b, ms.map (·.1), w, skip, ms.any (·.2)⟩
+  pure ⟨a, b, ms.map (·.1), w, skip, ms.any (·.2), maxRes⟩
+
+/-- the value of `key<digits>` in a `+`-separated configuration, 0 when absent -/
+def cfgNat (key : String) (kind : String) : Nat :=
+  ((splitChar '+' kind).filterMap fun t =>
+    if t.startsWith key ∧ (t.drop key.length).all Char.isDigit ∧ t.length > key.length then (t.drop key.length).toNat? else none).headD 0
 
 def kindOf (s : String) : String := (splitChar '+' s).headD ""
 
@@ -137,7 +145,7 @@ def showSeries (skip : Bool) (es : List StoreSpec.Entry) : String :=
     s!"{showLabels e.1}={ids}")
 
 def handleSeries (kind blocks mint maxt matchers without skip : String) : String :=
-  match parseSpecBlocks blocks, parseReq mint maxt matchers without (skip == "1") with
+  match parseSpecBlocks blocks, parseReq mint maxt matchers without (skip == "1") (cfgNat "x" kind) with
   | some bs, some r =>
     match kindOf kind, bs with
     | "tsdb", db :: _ =>
@@ -186,13 +194,8 @@ def handleProxy (op blocks mint maxt matchers without : String) (last : String) 
     | _ => "bad-op"
   | _, _ => "bad-op"
 
-/-- the value of `key<digits>` in a `+`-separated configuration, 0 when absent -/
-def cfgNat (key : String) (kind : String) : Nat :=
-  ((splitChar '+' kind).filterMap fun t =>
-    if t.startsWith key ∧ (t.drop key.length).all Char.isDigit ∧ t.length > key.length then (t.drop key.length).toNat? else none).headD 0
-
 def handleLimits (kind blocks mint maxt matchers without skip : String) : String :=
-  match parseSpecBlocks blocks, parseReq mint maxt matchers without (skip == "1") with
+  match parseSpecBlocks blocks, parseReq mint maxt matchers without (skip == "1") (cfgNat "x" kind) with
   | some bs, some r =>
     if kindOf kind != "bkt" then "bad-op" else
     match StoreSpec.bucketSeriesLimited (cfgNat "sl" kind) (cfgNat "cl" kind) bs r with
